@@ -2,6 +2,7 @@ import Driver.Util
 import Driver.PyJson
 import Torf.Model.Untrusted
 import Torf.Model.QueryString
+import Torf.Model.PyStrip
 open Lean Torf Torf.Bencode Torf.Untrusted
 namespace Driver.C08
 
@@ -154,7 +155,13 @@ def magnetOp (j : Json) : Except String Json := do
     | none => (true, 0)
     | some (_, query) => (parseQs pct query == o.parseQs query, numFields query.toList)
   let qsOk := (o.parseQs "").all fun kv => !kv.2.isEmpty
-  return jobj [("model", jobj [("kind", jstr (kindOf r)),
+  -- `uri.strip()`: the model's result against the harness's (absent = not compared), and its step count
+  let strippedM := String.ofList (pyStrip uri.toList)
+  let stripAgree := match j.getObjValAs? String "stripped" with
+    | .ok s => s == strippedM
+    | .error _ => true
+  return jobj [("stripAgree", jbool stripAgree), ("stripSteps", jnat (stripSteps uri.toList)),
+               ("model", jobj [("kind", jstr (kindOf r)),
                                ("infohash", match r with | .ok m => jstr m.infohash | .error _ => Json.null),
                                ("xl", match r with
                                       | .ok m => (match m.xl with | some n => jstr (toString n) | none => Json.null)
@@ -182,12 +189,18 @@ def xtOp (j : Json) : Except String Json := do
   let v ← getStr j "v"
   return jobj [("model", match setXt v with | .ok ih => jstr ih | .error _ => Json.null)]
 
+/-- op `c08.isspace`: {} ↦ every Unicode scalar value the model takes for white space (`isPySpace`) -/
+def isspaceOp (_ : Json) : Except String Json :=
+  return jobj [("space", jnats ((List.range 0x110000).filter fun n =>
+    (n < 0xd800 || n > 0xdfff) && isPySpace (Char.ofNat n)))]
+
 def handle (op : String) (j : Json) : Except String Json :=
   match op with
   | "c08.read" => readOp j
   | "c08.magnet" => magnetOp j
   | "c08.xt" => xtOp j
   | "c08.qs" => qsOp j
+  | "c08.isspace" => isspaceOp j
   | _ => throw s!"unknown op {op}"
 
 end Driver.C08
